@@ -6,6 +6,7 @@ mod c02;
 mod c03;
 mod c04;
 mod faults;
+mod c06;
 mod c07;
 mod c08;
 mod c09;
@@ -61,6 +62,7 @@ fn main() {
             "C02" => c02::replay(&v),
             "C03" => c03::replay(&v),
             "C04" => c04::replay(&v),
+            "C06" => c06::replay(&v),
             "C07" => c07::replay(&v),
             "C08" => c08::replay(&v),
             "C09" => c09::replay(&v),
@@ -79,6 +81,7 @@ fn main() {
             "C02" => c02::run(tier),
             "C03" => c03::run(tier),
             "C04" => c04::run(tier),
+            "C06" => c06::run(tier),
             "C07" => c07::run(tier),
             "C08" => c08::run(tier),
             "C09" => c09::run(tier),
